@@ -20,7 +20,7 @@ impl Check for C02 {
         vec!["reference trie uses blake3/sha2 crates directly with the MSB labelling of core/src/hasher.rs".into()]
     }
     fn cases(tier: Tier) -> u32 {
-        tier.pick(640, 10000)
+        tier.pick(4000, 40000)
     }
     fn strategy(tier: Tier) -> BoxedStrategy<History> {
         history_strategy(HistParams {
